@@ -13,6 +13,7 @@ EXTENDS Laws, Json, IOUtils, TLC
 Doc == JsonDeserialize(IOEnv.CASEFILE)
 B2S(b) == IF b THEN "T" ELSE "F"
 LawIds == {Catalogue[i].id : i \in 1..Len(Catalogue)} \cup {Oracles[i].id : i \in 1..Len(Oracles)}
+          \cup {Substitutions[i].id : i \in 1..Len(Substitutions)}
 FactOk(f) == f.law \in LawIds /\ f.outcome = "ok" /\ f.equal
 VARIABLE fi
 Init == fi \in 1..Len(Doc.facts)
